@@ -61,6 +61,21 @@ CHECKS = {
         technique="API-boundary exception-type monitor over enumerated kind confusions, character-level text corruptions, CSV content faults, injected open() failures and run-time argument faults; CLI exit-status/stderr monitor for every MPilotError",
         text="Whatever escapes Parser().parse, Program.from_source or Program.run is recorded; anything other than SyntaxError or an MPilotError is a violation (reported with the innermost mpilot frame). For MPilotErrors str(exc) must be computable and the command-line tool run on the same file must exit non-zero with the Problem/Solution text on stderr.",
         note="Out of scope: non-UTF-8 command files, KeyboardInterrupt/MemoryError. The CLI's handling of SyntaxError is not specified by the property and not judged."),
+    "C01": dict(
+        level="exploration", design="5/C01",
+        technique="event recorder at the execute()/Command.result boundary with an online life-cycle automaton and offline exactly-once / finished-before-use / fed-value checkers over the log; injective probe-library reference evaluation; post-run histories",
+        text="Every generated program (all 4-command DAG shapes x textual orders x reference styles, random DAGs up to 14 probe commands with repeated, list and nested-list references, string parameters colliding with result names, None-returning sinks; random EEMS models) is run with per-instance execute wrappers and a recording Command.result. The log must show exactly one enter/exit per command, reads only of finished results carrying the value execute returned, final values equal to the graph evaluation, and zero executions during a random history of further run()/result/metadata/to_string/validate_params calls.",
+        note="Trusted: the harness probe library and recorder. Many programs share one process (registry and parameter objects are process-global), so cross-program leakage is observable."),
+    "C14": dict(
+        level="fault_enumeration", design="5/C14",
+        technique="enumeration of cyclic labelled digraphs (all on <=4 commands in the thorough tier, sampled in quick; random on 5-8) with an outcome recorder around Program.run, cause-chain inspection and a Command.run depth counter",
+        text="Each cyclic program (self-loops, 2-cycles, longer cycles, tails, separate acyclic parts; references direct, in lists, in nested lists; probe and real EEMS commands; shuffled order) must make run() raise RecursiveModelStructure: a normal return, any other error, a RecursionError in the cause chain or a run depth beyond the command count is a violation.",
+        note="Whether commands outside the cycle ran before the rejection, and the error's line, are not judged."),
+    "C20": dict(
+        level="exploration", design="5/C20",
+        technique="icontract postconditions and snapshot-based purity conditions attached to every Parameter.clean from the harness (recording, evaluation-counted), exception-class monitor, repeat/idempotence monitors; matrix workload plus live contracts during whole-model runs",
+        text="Every parameter class and configuration is driven with ~130 raw values of every kind the parser or API delivers, with and without a working directory: the cleaned value must have the documented type, only ProgramError may be raised, a second clean and a clean of the cleaned value must give equal results, and deep snapshots of the raw value and of the program must be unchanged. The same contracts stay attached while random models are loaded and run (through from_source and through add_command), where the recorder pairs the pipeline's two cleanings of each argument.",
+        note="Trusted: icontract, the harness's statement of documented types. Don't-care list in the evidence assumptions."),
 }
 
 PENDING = {}
